@@ -11,7 +11,7 @@ func registerProps() {
 		return
 	}
 	props["C09"] = &propDef{
-		id: "C09", salt: 9, gen: gen.C09, quick: 1800, thorough: 20000, streams: 4, gateOps: true,
+		id: "C09", salt: 9, gen: gen.C09, quick: 2400, thorough: 20000, streams: 4, gateOps: true,
 		rule: "one evaluation = one simulated run in its own OS process: 1-6 caller tasks over the instrumented library under a seeded scheduler " +
 			"(seq histories / rr / random(p) / PCT(d) / targeted-class preemption), every result compared with the same call made as the first and only call of a fresh process; " +
 			"HB race monitor, lock monitor and exact deadlock detection on every step. Non-trivial: multi-task run with at least one context switch inside a library call, " +
